@@ -128,6 +128,7 @@ def must(ctx):
     out += _pool_rows(ctx)
     out += _future_rows(ctx)
     out += _pipe_rows2(ctx)
+    out += _third_batch(ctx)
     return out
 
 
@@ -567,6 +568,34 @@ def _pool_rows(ctx):
                     out.append(ok(R, key, '`false` is only reported after the walk over the thread table is exhausted', fn=sd.name))
                 else:
                     out.append(bad(R, key, 'schedule_dormant can report "no dormant thread" without having looked at every thread: the pool spawns (or, at its maximum, gives up) while an idle thread exists', fn=sd.name))
+        # the thread that is handed the work is one that was found idle, and a thread found idle is always handed the work
+        key = 'schedule_dormant|idle-thread-gets-the-work'
+        btests = []
+        for bb, b in enumerate(sd.blocks):
+            t = b['term']
+            if t and t['k'] == 'switch' and not b['cleanup'] and t['discr']['k'] != 'const':
+                e_ = sd.expr_of_operand(t['discr'])
+                neg = False
+                while e_[0] == 'unop' and e_[1] == 'Not':
+                    neg = not neg
+                    e_ = e_[2]
+                txt = render(e_)
+                if 'lock(' in txt and txt.endswith(' as Ok).0') and 'next(' in txt and len(t['targets']) == 1 and e_[0] != 'discr':
+                    tg = dict((str(v), tb) for v, tb in t['targets'])
+                    zero, other = tg.get('0'), t['otherwise']
+                    idle = other if neg else zero          # the edge on which `*busy` is false
+                    btests.append((bb, idle))
+        if len(btests) == 1 and runs and nxt:
+            bt, idle = btests[0]
+            probs = []
+            if not all(edom(sd, idle, r_) for r_ in runs):
+                probs.append('work can be handed to a thread whose busy flag was set (it is queued behind whatever that thread is doing - possibly a job that blocks - although other threads are free)')
+            if not sd.must_pass(idle, set(sd.exits()) | {nxt[0][0]}, set(runs)):
+                probs.append('a thread that was found idle can be passed over: at the maximum pool size the queue then gets no thread although one is dormant')
+            if probs:
+                out.append(bad(R, key, '; '.join(probs), fn=sd.name))
+            else:
+                out.append(ok(R, key, 'the hand-over lies on the busy==false edge, and that edge always leads to it', fn=sd.name))
         key = 'schedule_dormant|reaps-first'
         rf = [bb for bb, t in calls(sd, 'SchedulerCore::remove_finished_threads')]
         if rf and _always(sd, rf):
@@ -855,4 +884,249 @@ def _pipe_rows2(ctx):
                 out.append(bad(R, key2, 'the poll job can finish without awaiting the future the poll function returned: the items it would have read stay unread', fn=c.name))
             else:
                 out.append(ok(R, key2, 'the job calls the poll function and awaits what it returns (unless the function is already gone)', fn=c.name))
+    return out
+
+
+def _third_batch(ctx):
+    """Rows found with the `ifopaque` probe: a condition that keeps its test but is weakened (`|| x`) or strengthened (`&& !x`)."""
+    from .ordq import dominates, edom, await_sites, inner_switch, switch_of_local
+    from .rules_lw import FieldUse
+    from .rules_ord import pipe_result_blocks
+    F = ctx.F
+    g = cg(ctx)
+    out = []
+    # ---- pool thread body (the closure handed to SchedulerThread::run): it stops only when it found nothing to run, and then it is idle
+    sd = F.fn('desync::SchedulerCore::schedule_dormant')
+    body = None
+    for k in (_children(ctx, sd.name) if sd else []):
+        ps = [s_ for s_ in g.sites.get(k.name, []) if s_.kind == 'param']
+        if len(ps) >= 2:
+            body = k
+    if body is not None:
+        ps = [s_ for s_ in g.sites.get(body.name, []) if s_.kind == 'param']
+        fetch = [s_ for s_ in ps if 'Option' in clean_ty(s_.t['dest']['ty'])]
+        if len(fetch) == 1:
+            fetch = fetch[0]
+            e = result_edges(body, fetch.bb)
+            none_edge = edge_for(e, OPTION, 'None') if e else None
+            # `if x.is_none()` form
+            if none_edge is None:
+                for bb, t in calls(body, 'core::option::Option::is_none'):
+                    sw = switch_of_local(body, t['dest']['l'], t['target']) if t['target'] is not None else None
+                    if sw:
+                        none_edge = sw[2]
+            writes = []
+            for bb, b in enumerate(body.blocks):
+                if b['cleanup']:
+                    continue
+                for i, s_ in enumerate(b['stmts']):
+                    if s_['k'] == 'assign' and s_['pl']['p'] and s_['rv']['k'] == 'use' and s_['rv']['op']['k'] == 'const' and str(s_['rv']['op'].get('val')) == '0' and clean_ty(s_['rv']['op'].get('ty', '')) == 'bool':
+                        writes.append(bb)
+            key = 'pool-thread|goes-dormant-only-after-finding-nothing'
+            if none_edge is not None:
+                # every test of the fetched value has a nothing-to-run edge (is_none(), or a match on it after it was moved)
+                none_edges = {none_edge}
+                aliases = {fetch.t['dest']['l']}
+                for _ in range(4):
+                    for b2 in body.blocks:
+                        for s2 in b2['stmts']:
+                            if s2['k'] == 'assign' and not s2['pl']['p'] and s2['rv']['k'] == 'use' and s2['rv']['op']['k'] in ('move', 'copy') \
+                                    and not s2['rv']['op']['pl']['p'] and s2['rv']['op']['pl']['l'] in aliases:
+                                aliases.add(s2['pl']['l'])
+                for bb2, b2 in enumerate(body.blocks):
+                    t2 = b2['term']
+                    if t2 and t2['k'] == 'switch' and not b2['cleanup']:
+                        for s2 in b2['stmts']:
+                            if s2['k'] == 'assign' and s2['rv']['k'] == 'discr' and not s2['rv']['pl']['p'] and s2['rv']['pl']['l'] in aliases:
+                                tg2 = dict((str(v), tb) for v, tb in t2['targets'])
+                                none_edges.add(tg2.get('0', t2['otherwise']))
+                if _always(body, sorted(none_edges)):
+                    out.append(ok(R, key, 'the work loop of a pool thread is left only through the nothing-to-run edge', fn=body.name))
+                else:
+                    out.append(bad(R, key, 'a pool thread can leave its work loop without having found the schedule empty: it stops with its busy flag set (nobody will ever hand it work again) and whatever was on the schedule waits', fn=body.name))
+                key = 'pool-thread|nothing-to-run-clears-busy'
+                if writes and body.must_pass(none_edge, set(body.exits()) | {fetch.bb}, set(writes)):
+                    out.append(ok(R, key, 'on the nothing-to-run edge the busy flag is always cleared', fn=body.name))
+                elif writes:
+                    out.append(bad(R, key, 'a pool thread that found nothing to run can go dormant with its busy flag still set: schedule_dormant never picks it again and it counts against the maximum for ever', fn=body.name))
+    # ---- spawn: room means push
+    sp = F.fn('desync::SchedulerCore::spawn_thread_if_less_than_maximum')
+    key = 'spawn_thread_if_less_than_maximum|room-means-spawn'
+    if sp:
+        pushes = [bb for bb, t in calls(sp, 'alloc::vec::Vec::push') if t['args'] and t['args'][0]['k'] != 'const' and 'SchedulerThread' in clean_ty(t['args'][0]['pl']['ty'])]
+        for bb, b in enumerate(sp.blocks):
+            t = b['term']
+            if t and t['k'] == 'switch' and not b['cleanup'] and pushes:
+                for s_ in b['stmts']:
+                    if s_['k'] == 'assign' and s_['rv']['k'] == 'binop' and s_['rv']['op'] in ('Lt', 'Gt', 'Le', 'Ge') and 'len(' in (render(sp.expr_of_operand(s_['rv']['a'])) + render(sp.expr_of_operand(s_['rv']['b']))):
+                        succ = [tb for _, tb in t['targets']] + [t['otherwise']]
+                        room = [e_ for e_ in succ if any(e_ == p_ or p_ in sp.reachable_blocks(e_) for p_ in pushes)]
+                        if len(room) == 1:
+                            if sp.must_pass(room[0], set(sp.exits()), set(pushes)):
+                                out.append(ok(R, key, 'on the side of the bound test that has room a thread is always added', fn=sp.name))
+                            else:
+                                out.append(bad(R, key, 'the pool has room and spawn_thread_if_less_than_maximum can still refuse: a ready queue gets no thread although one could be spawned', fn=sp.name))
+    # ---- sync_background waits only while its job is not done
+    sb = F.fn('desync::Scheduler::sync_background')
+    key = 'sync_background|waits-only-while-not-ready'
+    if sb:
+        waits = [bb for bb, t in calls(sb, 'Condvar::wait')]
+        tests = []
+        for bb, b in enumerate(sb.blocks):
+            t = b['term']
+            if t and t['k'] == 'switch' and not b['cleanup'] and t['discr']['k'] != 'const':
+                e_ = sb.expr_of_operand(t['discr'])
+                neg = False
+                while e_[0] == 'unop' and e_[1] == 'Not':
+                    neg = not neg
+                    e_ = e_[2]
+                txt = render(e_)
+                is_flag = False
+                if e_[0] == 'var' and isinstance(e_[1], int) and 'MutexGuard' in clean_ty(sb.local_ty(e_[1])) and 'bool' in clean_ty(sb.local_ty(e_[1])):
+                    is_flag = True          # `*ready` through the named guard
+                if 'lock(' in txt and txt.endswith(' as Ok).0') and 'Arc::new' not in txt and 'Mutex::new(0)' in txt.replace('new(new(0))', 'Mutex::new(0)'):
+                    is_flag = True
+                if is_flag and len(t['targets']) == 1:
+                    tg = dict((str(v), tb) for v, tb in t['targets'])
+                    not_ready = t['otherwise'] if neg else tg.get('0')
+                    tests.append((bb, not_ready))
+        if waits and tests:
+            if all(any(edom(sb, nr, w) for _, nr in tests) for w in waits):
+                out.append(ok(R, key, 'the wait lies on the ready==false edge of a test of the flag', fn=sb.name))
+            else:
+                out.append(bad(R, key, 'sync_background can wait on its condition variable although its ready flag is already set: the notification has been delivered and no other will come', fn=sb.name))
+    # ---- drain_queue: a result that was taken out of the slot is returned
+    dq = F.fn('desync::SchedulerFuture::drain_queue')
+    key = 'drain_queue|taken-result-is-returned'
+    if dq:
+        takes = [(bb, t) for bb, t in calls(dq, 'FutureResultState::take')]
+        readies = []
+        for bb, b in enumerate(dq.blocks):
+            if b['cleanup']:
+                continue
+            for s_ in b['stmts']:
+                if s_['k'] == 'assign' and s_['rv']['k'] == 'agg' and s_['rv'].get('adt') == 'core::task::poll::Poll' and s_['rv'].get('variant') == 'Ready':
+                    readies.append(bb)
+        probs = 0
+        n = 0
+        # `result = slot.take(); if result.is_some() { .. }`: the test of the named variable the take was stored in
+        named = {}
+        for bb, t in takes:
+            d_ = t['dest']['l']
+            holders = {d_}
+            for _ in range(3):
+                for b2 in dq.blocks:
+                    for s2 in b2['stmts']:
+                        if s2['k'] == 'assign' and not s2['pl']['p'] and s2['rv']['k'] == 'use' and s2['rv']['op']['k'] in ('move', 'copy') and not s2['rv']['op']['pl']['p'] and s2['rv']['op']['pl']['l'] in holders:
+                            holders.add(s2['pl']['l'])
+            named[bb] = holders
+        pred_tests = []
+        for bb2, t2 in dq.calls():
+            nm2 = t2['func'].get('fn') or ''
+            if nm2 in ('core::option::Option::is_some', 'core::option::Option::is_none') and not dq.blocks[bb2]['cleanup'] and t2['args'] and t2['args'][0]['k'] != 'const':
+                root = dq.expr_of_operand(t2['args'][0])
+                if root[0] == 'var' and any(root[1] in h for h in named.values()) and t2['target'] is not None:
+                    sw = switch_of_local(dq, t2['dest']['l'], t2['target'])
+                    if sw:
+                        tg2 = sw[1]
+                        true_e, false_e = sw[2], tg2.get('0')
+                        pred_tests.append(true_e if nm2.endswith('is_some') else false_e)
+        for bb, t in takes:
+            e = result_edges(dq, bb)
+            some = edge_for(e, OPTION, 'Some') if e else None
+            if some is None:
+                continue
+            n += 1
+            if not dq.must_pass(some, set(dq.exits()), set(readies)) and feasible_reach(dq, some, set(dq.exits()), set(readies)):
+                probs += 1
+        for some in pred_tests:
+            if some is None:
+                continue
+            n += 1
+            if not dq.must_pass(some, set(dq.exits()), set(readies)) and feasible_reach(dq, some, set(dq.exits()), set(readies)):
+                probs += 1
+        if n:
+            if probs:
+                out.append(bad(R, key, 'drain_queue can take the result out of the slot and then return Pending: the value is dropped with the local and the future never resolves', fn=dq.name))
+            else:
+                out.append(ok(R, key, 'every path on which the result was taken returns Poll::Ready with it (%d take sites)' % n, fn=dq.name))
+    # ---- SyncFuture::poll: the future it has just created is polled before poll returns
+    sp2 = F.fn('<desync::SyncFuture as core::future::future::Future>::poll')
+    key = 'SyncFuture::poll|new-future-is-polled-at-once'
+    if sp2:
+        creates = [s_.bb for s_ in g.sites.get(sp2.name, []) if s_.kind == 'param']
+        upolls = [s_.bb for s_ in g.sites.get(sp2.name, []) if s_.kind == 'poll' and s_.foreign]
+        if creates and upolls:
+            tg = sp2.blocks[creates[0]]['term']['target']
+            # the poll happens in the next turn of the state loop: what has to hold is that the function cannot return between creating the
+            # future and dispatching on the state again (the `retry` flag is a constant on that path)
+            disp = set(upolls)
+            for bb_, b_ in enumerate(sp2.blocks):
+                t_ = b_['term']
+                if t_ and t_['k'] == 'switch' and not b_['cleanup']:
+                    for s_ in b_['stmts']:
+                        if s_['k'] == 'assign' and s_['rv']['k'] == 'discr' and 'SyncFutureState' in clean_ty(s_['rv']['pl']['ty']) and len(t_['targets']) >= 3:
+                            disp.add(bb_)
+            if tg is not None and (sp2.must_pass(tg, set(sp2.exits()), disp) or not feasible_reach(sp2, tg, set(sp2.exits()), disp)):
+                out.append(ok(R, key, 'after creating the operation\'s future every path polls it before returning', fn=sp2.name))
+            elif tg is not None:
+                out.append(bad(R, key, 'SyncFuture::poll can return Pending right after creating the operation\'s future, without polling it: nothing holds a waker for the task any more (the slot signal is spent) and the future never completes', fn=sp2.name))
+    # ---- pipe(): the producer answers "finished" only when the output is closed / gone or the input has ended
+    ks = [k for k in _children(ctx, 'desync::pipe') if k.is_coroutine]
+    key = 'pipe|finished-only-when-closed-or-ended'
+    if len(ks) == 1:
+        k = ks[0]
+        prb = pipe_result_blocks(ctx, k)
+        polls = [x for x in g.sites.get(k.name, []) if x.kind == 'poll' and 'poll_next' in (x.t['func'].get('fn') or '')]
+        if prb and len(polls) == 1:
+            keep_b, stop_b = prb
+            licensed = set()
+            e = result_edges(k, polls[0].bb)
+            ready = edge_for(e, 'core::task::poll::Poll', 'Ready') if e else None
+            inner = inner_switch(k, polls[0].t['dest']['l'], 'Ready', ready) if ready is not None else None
+            none = edge_for(inner, OPTION, 'None') if inner else None
+            if none is not None:
+                licensed.add(none)
+            for bb, b in enumerate(k.blocks):
+                t = b['term']
+                if t and t['k'] == 'switch' and not b['cleanup'] and t['discr']['k'] != 'const':
+                    e_ = k.expr_of_operand(t['discr'])
+                    txt = render(e_)
+                    if txt.endswith('.closed') and 'lock(' in txt:
+                        licensed.add(t['otherwise'])
+                    dty = ''
+                    for s2_ in b['stmts']:
+                        if s2_['k'] == 'assign' and s2_['rv']['k'] == 'discr':
+                            dty = clean_ty(s2_['rv']['pl'].get('ty') or '')
+                    if e_[0] == 'discr' and ('upgrade(' in txt or ('Option<' in dty and 'PipeStreamCore' in dty)):
+                        tgd = dict((str(v), tb) for v, tb in t['targets'])
+                        licensed.add(tgd.get('0', t['otherwise']))
+            bad_stop = [b for b in stop_b if not any(edom(k, l_, b) or l_ == b for l_ in licensed)]
+            if licensed and not bad_stop:
+                out.append(ok(R, key, 'every "finished" answer lies on a closed==true edge, the end-of-input edge, or the output-core-is-gone edge', fn=k.name))
+            elif licensed:
+                out.append(bad(R, key, 'the producer can answer "finished" while the output stream is open and the input has not ended: the pipe is torn down and the remaining inputs never produce outputs', loc=k.loc(bad_stop[0]), fn=k.name))
+    # ---- PipeStream::poll_next: a closed, empty stream ends
+    pn = F.fn('<desync::PipeStream as futures_core::stream::Stream>::poll_next')
+    key = 'PipeStream::poll_next|closed-and-empty-ends'
+    if pn:
+        pend = []
+        for bb, b in enumerate(pn.blocks):
+            if b['cleanup']:
+                continue
+            for s_ in b['stmts']:
+                if s_['k'] == 'assign' and s_['rv']['k'] == 'agg' and s_['rv'].get('adt') == 'core::task::poll::Poll' and s_['rv'].get('variant') == 'Pending':
+                    pend.append(bb)
+        closed_true = []
+        for bb, b in enumerate(pn.blocks):
+            t = b['term']
+            if t and t['k'] == 'switch' and not b['cleanup'] and t['discr']['k'] != 'const':
+                txt = render(pn.expr_of_operand(t['discr']))
+                if txt.endswith('.closed'):
+                    closed_true.append(t['otherwise'])
+        if pend and closed_true:
+            if any(p_ == c_ or p_ in pn.reachable_blocks(c_) for c_ in closed_true for p_ in pend):
+                out.append(bad(R, key, 'poll_next can answer Pending for a stream that is closed and empty: the consumer waits for an item that will never come instead of seeing the end', fn=pn.name))
+            else:
+                out.append(ok(R, key, 'once closed and empty the stream never answers Pending', fn=pn.name))
     return out
